@@ -432,10 +432,10 @@ theorem execute_spec {s : St} (hT : TimerFn setT) (j : Nat) (due : Int) (h : Inv
   simp only []
   -- the state right before `update_next`
   generalize hs0 : (if (s.job j).execFail.contains (s.job j).execs = true then
-      (((s.emit (Ev.exec j s.now due)).setJob j { s.job j with execs := (s.job j).execs + 1 })).emit (Ev.exc "CallableError")
-    else ((s.emit (Ev.exec j s.now due)).setJob j { s.job j with execs := (s.job j).execs + 1 })) = s0
-  have hb : JobOK ({ s.job j with execs := (s.job j).execs + 1 } : Job) := h.st j
-  have hA : Inv ((s.emit (Ev.exec j s.now due)).setJob j { s.job j with execs := (s.job j).execs + 1 }) :=
+      (((s.emit (Ev.exec j s.now due)).setJob j { s.job j with execs := (s.job j).execs + 1, lastRun := some s.now })).emit (Ev.exc "CallableError")
+    else ((s.emit (Ev.exec j s.now due)).setJob j { s.job j with execs := (s.job j).execs + 1, lastRun := some s.now })) = s0
+  have hb : JobOK ({ s.job j with execs := (s.job j).execs + 1, lastRun := some s.now } : Job) := h.st j
+  have hA : Inv ((s.emit (Ev.exec j s.now due)).setJob j { s.job j with execs := (s.job j).execs + 1, lastRun := some s.now }) :=
     (InvEx_setJob _ ((Inv_emit _ h (by simpa [evOK] using hdue)).toEx j) hb).toInv hj
   have h0 : Inv s0 ∧ s0.queue = s.queue := by
     subst hs0
